@@ -77,10 +77,42 @@ NominatedOK(e) == e.nominated # "" =>
 TNominate == IsEvent("nominate") /\ Ev.ok /\ Query(MatchedOK(Ev) /\ NominatedOK(Ev),
                    "nominated: known, owners satisfied, not an allocate-once reservation holding another pod")
 
+(***************************** C19: restart *********************************)
+\* The scheduler restarts.  What survives is what the API server holds.  An informer event delivers the current API
+\* object, so the API server's copy of a reservation / pod is the object carried by the LAST informer event about it
+\* in this segment (gone after rDelete / podDelete); Reserve / Unreserve (rAssume rForget assume forget) and the
+\* cache-only deletion (rCacheDelete) never touch the API server.  These are read off the recorded history itself:
+RInformer == {"rAdd", "rUpdate", "rDelete"}
+PInformer == {"podAdd", "podUpdate", "podDelete"}
+Past      == (seg + 1)..(l - 1)
+LastOf(J) == CHOOSE j \in J : \A k \in J : k <= j
+ApiRes  == LET J == {j \in Past : Trace[j].op \in RInformer}
+               last(u) == LastOf({j \in J : Trace[j].r = u})
+               U == {u \in {Trace[j].r : j \in J} : Trace[last(u)].op # "rDelete"}
+           IN [u \in U |-> RObj(Trace[last(u)])]
+ApiPods == LET J == {j \in Past : Trace[j].op \in PInformer}
+               last(p) == LastOf({j \in J : Trace[j].pod = p})
+               P == {p \in {Trace[j].pod : j \in J} : Trace[last(p)].op # "podDelete"}
+           IN [p \in P |-> PObj(Trace[last(p)])]
+\* The state a freshly started scheduler must hold, whatever the order in which its informers deliver the surviving
+\* objects: the reservations that are usable according to their persisted status, each holding exactly the pods that
+\* were BOUND with the assignment persisted on them (annotation written at pre-bind) and are still running.
+\* Dropped, explicitly: reservations whose reserve pod was only assumed (status never written), assignments that
+\* were only assumed (pod never bound), reservations the old scheduler merely kept as unusable until their removal.
+\* Everything else is identical: (L) then demands allocated = sum over the persisted assigned pods in the reserved
+\* dimensions - no reserved amount taken before the restart is free after it.
+RestartF == LET R == ApiRes
+                P == ApiPods
+                K == {u \in DOMAIN R : Active(R[u])}
+            IN [res      |-> [u \in K |-> R[u]],
+                assigned |-> [u \in K |-> LET A == {p \in DOMAIN P : P[p].ra = u /\ P[p].pnode # "" /\ ~P[p].dead}
+                                           IN [p \in A |-> P[p].req]]]
+TRestart == IsEvent("restart") /\ Step(RestartF)
+
 TraceInit == \E i \in Starts : TraceStart(i) /\ Init
 TraceNext == \/ TRAdd \/ TRUpdate \/ TRDelete \/ TRAssume \/ TRForget \/ TRCacheDelete
              \/ TAssume \/ TForget \/ TPodAdd \/ TPodUpdate \/ TPodDelete
-             \/ TFit \/ TMatch \/ TNominate
+             \/ TFit \/ TMatch \/ TNominate \/ TRestart
              \/ (SegDone /\ UNCHANGED vars)
 TraceSpec == TraceInit /\ [][TraceNext]_<<vars, tvars>>
 =============================================================================
